@@ -207,6 +207,30 @@ def run(c):
     if nf < 12:
         raise util.ToolError("forged-header scenario: only %d authorization headers reached the host" % nf)
     c.extra["requests_with_client_authorization_header"] = 6
+    # 4b'. own calls that span a rotation: (i) one long-lived WireServer client makes the goal-state call, the keeper latches
+    #      k2, the same client makes the shared-config call; (ii) an IMDS call signed under k1 is answered 403 late, the keeper
+    #      having latched k2 meanwhile (whatever the client does next, every header pairs an id with its own secret)
+    osteps = [keeper_op("k1"),
+              {"op": "own_call", "kind": "refresh", "tag": "refresh1", "rotate": {"guid": G["k2"], "key": K["k2"]}},
+              keeper_op("k1"),
+              {"op": "own_call", "kind": "refresh", "tag": "refresh2"},
+              {"op": "set_plan", "id": "GET /metadata/instance*", "resp": {"status": 403, "headers": [["content-type", "text/plain"]],
+                                                                           "body": {"text": "signature rejected"}, "delay_ms": 400}},
+              {"op": "parallel", "branches": [[{"op": "own_call", "kind": "imds", "tag": "imds403"}],
+                                              [{"op": "sleep", "ms": 150}, keeper_op("k2")]]},
+              {"op": "set_plan", "id": "GET /metadata/instance*", "resp": {"status": 200, "headers": [["content-type", "application/json"]],
+                                                                           "body": {"text": "{}"}}},
+              {"op": "own_call", "kind": "imds", "tag": "imds200"}]
+    ev, d, _ = rig.run_rig({"steps": osteps, "drain_ms": 200}, "c10_own", timeout=300)
+    no = 0
+    for rid, g, v, e in sign_events(ev, None):
+        c.count()
+        if g is not None:
+            no += 1
+            rows.append({"e": "sign", "signer": "own-call-across-rotation", "guid": g, "verifies": v or "none", "id": rid or "own", "hist": []})
+    if no < 5:
+        raise util.ToolError("own-call scenario: only %d authorization headers reached the hosts" % no)
+    c.extra["own_calls_across_rotation"] = no
     # 4c. the real key keeper re-latches: the host still names key A (whose file the guest lost) and issues a fresh key B on
     #     the acquire; attestation, the agent's own calls and proxied requests must all name the key whose secret made the MAC
     from checks import c12
